@@ -1,4 +1,5 @@
 import decimal
+import fractions
 import math
 from typing import Tuple, Union
 
@@ -142,39 +143,15 @@ def CEILING(
         raise xlerrors.NumExcelError('significance below zero and number \
                                       above zero is not allowed')
 
-    number = float(number)
-    significance = float(significance)
+    # Work on the exact decimal representations: binary floating point gives
+    # CEILING(0.06, 0.1) = 0.2 and CEILING(4.42, 0.05) = 4.46.
+    number = fractions.Fraction(str(float(number)))
+    significance = fractions.Fraction(str(float(significance)))
 
-    ceiling = significance * math.ceil(number / significance)
-
-    # If number is an exact multiple of significance, no rounding occurs
-    if (number % significance) == 0:
-        return ceiling
-
-    quantize_multiplier = str(significance % 1)
-
-    # If number is negative, and significance is negative, the value is
-    # rounded down, away from zero.
-    if number < 0 and significance < 0:
-        result = decimal.Decimal(ceiling)
-        result = result.quantize(decimal.Decimal(quantize_multiplier),
-                                 rounding=decimal.ROUND_DOWN)
-        return float(result)
-
-    # If number is negative, and significance is positive, the value is
-    # rounded up towards zero.
-    if number < 0 < significance:
-        result = decimal.Decimal(ceiling)
-        result = result.quantize(decimal.Decimal(quantize_multiplier),
-                                 rounding=decimal.ROUND_UP)
-        return float(result)
-
-    # Regardless of the sign of number, a value is rounded up when adjusted
-    # away from zero.
-    result = decimal.Decimal(ceiling)
-    result = result.quantize(decimal.Decimal(quantize_multiplier),
-                             rounding=decimal.ROUND_UP)
-    return float(result)
+    # The smallest multiple of significance that is not below number. With
+    # both negative that is away from zero, with a negative number and a
+    # positive significance it is towards zero.
+    return float(significance * math.ceil(number / significance))
 
 
 @xl.register()
@@ -303,7 +280,12 @@ def FLOOR(
     if significance == 0:
         raise xlerrors.DivZeroExcelError()
 
-    return significance * math.floor(number / significance)
+    # Work on the exact decimal representations: binary floating point gives
+    # FLOOR(0.7, 0.1) = 0.6000000000000001.
+    number = fractions.Fraction(str(float(number)))
+    significance = fractions.Fraction(str(float(significance)))
+
+    return float(significance * math.floor(number / significance))
 
 
 @xl.register()
